@@ -1,6 +1,7 @@
+import os
 import re
 def cases(tier, hdr, path):
-    src = open("/repo/src/include/janet.h").read()
+    src = open(os.path.join(os.environ.get("VF_REPO", "/repo"), "src/include/janet.h")).read()
     m = re.search(r"enum JanetOpCode \{(.*?)\};", src, re.S)
     ops = [x.strip().rstrip(",") for x in m.group(1).split("\n") if x.strip().startswith("JOP_") and "INSTRUCTION_COUNT" not in x]
     pushes = {"JOP_PUSH", "JOP_PUSH_2", "JOP_PUSH_3", "JOP_PUSH_ARRAY", "JOP_CALL", "JOP_TAILCALL", "JOP_RESUME", "JOP_SIGNAL", "JOP_PROPAGATE", "JOP_CANCEL", "JOP_MAKE_ARRAY", "JOP_MAKE_BUFFER",
